@@ -251,3 +251,36 @@ pub fn initial_snapshot(repr: &str, nq: usize, shots: usize) -> String
         out
     }
 }
+
+
+/// Structured Clifford circuit: a parity qubit entangled with several superposed qubits (so that it carries X or Y in two
+/// or more generator rows of the normalised tableau), measured (or reset) and followed by measurements of its partners in
+/// random bases.  Random circuits rarely reach such tableaux.
+pub fn gen_parity_circuit(rng: &mut SplitMix64, allow_reset: bool, allow_peek: bool) -> CircuitText
+{
+    let nq = 3 + rng.below(3) as usize;
+    let nc = nq;
+    let mut qs: Vec<usize> = (0..nq).collect();
+    rng.shuffle(&mut qs);
+    let target = qs[0];
+    let nsrc = 2 + rng.below((nq - 2) as u64) as usize;
+    let mut ops = vec![];
+    for &q in qs[1..=nsrc].iter() { ops.push(format!("gate 1 {} H", q)); if rng.below(4) == 0 { ops.push(format!("gate 1 {} S", q)); } }
+    for &q in qs[1..=nsrc].iter()
+    {
+        let g = *rng.pick(&["CX", "CX", "CY", "CZ"]);
+        if g == "CZ" { ops.push(format!("gate 1 {} H", target)); }
+        ops.push(format!("gate 2 {} {} {}", q, target, g));
+        if g == "CZ" { ops.push(format!("gate 1 {} H", target)); }
+    }
+    match rng.below(4)
+    {
+        1 if allow_reset => ops.push(format!("reset {}", target)),
+        2 if allow_peek => { ops.push(format!("peek {} {} Z", target, target)); ops.push(format!("measure {} {} Z", target, target)); },
+        3 if allow_reset => { ops.push(format!("measure {} {} Z", target, target)); ops.push(format!("reset {}", qs[1])); },
+        _ => ops.push(format!("measure {} {} {}", target, target, gen_basis(rng))),
+    }
+    for &q in qs[1..].iter() { if rng.below(3) != 0 { ops.push(format!("measure {} {} {}", q, q, gen_basis(rng))); } }
+    ops.push(format!("measure {} {} Z", target, target));
+    CircuitText { nq, nc, ops }
+}
